@@ -5,6 +5,7 @@ import WfProofs.RunnerAnnounce
 import WfModel.GenIdleShape
 import WfModel.GenLifecycleShape
 import WfModel.GenLifecycle
+import WfModel.Lifecycle
 /-!
 # C03 — queued work never stalls; idleness is reported only when truly idle
 
@@ -631,3 +632,62 @@ condition a full step from one with a free slot -/
 example : GenIdleShape.stepBusy true false false false = true ∧ GenIdleShape.stepBusy false false true true = false ∧
     GenIdleShape.rewindDrainContinues 2 1 2 = true ∧ GenIdleShape.rewindDrainContinues 2 2 2 = false ∧
     GenIdleShape.hasSpace 0 1 2 = true := by decide
+
+/-! # The server side of the property, on model M7
+
+`WfModel/Lifecycle.lean` (A) is the `IdleReleaseDecorator` with every await-free section as an action; C26 / C36
+tie it action by action to the real in-process stack.  The three theorems below are what C03 needs from it:
+what the server *treats as idle* and *when it releases* on the strength of it.  They are single-step facts, for
+every state (reachable or not) and every action. -/
+
+theorem C03.release_idleSince (s : Lifecycle.S) (t : Nat) : (Lifecycle.release s t).idleSince = s.idleSince := by
+  unfold Lifecycle.release; simp only; split <;> rfl
+
+/-- **What the server treats as idle**: the handler's `idle_since` changes only in two ways — it is set, to the
+current time, by the engine's idle announcement (`write_to_event_stream(WorkflowIdleEvent)`), which the engine
+makes only when the reducer sees no work (`C03_idle_reducer_sound`); or it is cleared by a `send_event` (to the
+run in memory, or after a reload).  Nothing else marks a run idle. -/
+theorem C03_server_idle_mark_origin (s s' : Lifecycle.S) (a : Lifecycle.Act) (h : Lifecycle.step s a = some s')
+    (hne : s'.idleSince ≠ s.idleSince) :
+    (a = .eMark ∧ s.work = false ∧ s'.idleSince = some s.now) ∨
+      (s'.idleSince = none ∧ ∃ i, a = .sClear i ∨ a = .sRClear i) := by
+  cases a <;> simp only [Lifecycle.step] at h
+  all_goals
+    (repeat' split at h) <;> first
+      | (cases h; done)
+      | (simp only [Option.some.injEq] at h; subst h; first
+          | exact (hne rfl).elim
+          | exact (hne (C03.release_idleSince _ _)).elim
+          | (left; refine ⟨rfl, ?_, rfl⟩; simp_all)
+          | (right; exact ⟨rfl, _, Or.inl rfl⟩)
+          | (right; exact ⟨rfl, _, Or.inr rfl⟩))
+
+/-- **When it releases**: the run leaves the active set (and its control loop is aborted) only in the decision
+step of a `_deferred_release` task that read, under the reload lock, an idle mark `t0` that is at least
+`idle_timeout` old (`GenLifecycle.elapsedTooShort`, the comparison as written in the source). -/
+theorem C03_server_release_needs_mark (s s' : Lifecycle.S) (a : Lifecycle.Act) (h : Lifecycle.step s a = some s')
+    (hrel : s.active = true ∧ s'.active = false) :
+    ∃ j t0, a = .tDecide j ∧ s.lock = some (.tDecide j (some t0)) ∧ s.tau ≤ s.now - t0 := by
+  cases a <;> simp only [Lifecycle.step] at h
+  all_goals
+    (repeat' split at h) <;> first
+      | (cases h; done)
+      | (simp only [Option.some.injEq] at h; subst h; first
+          | (exfalso; simp_all; done)
+          | skip)
+  rename_i j _ j' hj _ t0 heq hel _
+  refine ⟨j, t0, rfl, by rw [heq, hj], ?_⟩
+  simpa [GenLifecycle.elapsedTooShort] using hel
+
+/-- … and the mark a release task decides on is the one in the store when it queried it (under the lock). -/
+theorem C03_server_release_reads_mark (s s' : Lifecycle.S) (j : Nat) (h : Lifecycle.step s (.tQuery j) = some s') :
+    s'.lock = some (.tDecide j s.idleSince) := by
+  simp only [Lifecycle.step] at h
+  split at h
+  · simp only [Option.some.injEq] at h; subst h; rfl
+  · cases h
+
+/-- non-vacuity: an idle announcement marks the run, the timer decides on that mark after `tau`, the run is released -/
+example :
+    let s := Lifecycle.run (Lifecycle.init 5) [.eDone, .eMark, .eSpawn 0, .advance 5, .tAcq 0, .tQuery 0]
+    (s.idleSince, s.active, (Lifecycle.stepD s (.tDecide 0)).active) = (some 0, true, false) := by decide
